@@ -9,9 +9,9 @@
    (d) the variant of the period-stepping loop and the guard that makes it apply.
    Property theorems only. *)
 From Coq Require Import String.
-From LedgerV Require Import Base.Prelude Base.Round Model.Amount Model.Buffers Model.Nesting Model.Stepping Model.FormatRef
+From LedgerV Require Import Base.Prelude Base.Round Model.Amount Model.Buffers Model.Nesting Model.Stepping Model.FormatRef Model.Aliases
   Gen.BufferSites Gen.SafetyGuards
-  Proofs.BuffersProofs Proofs.NestingProofs Proofs.DivGuardProofs Proofs.SteppingProofs Proofs.FormatRefProofs.
+  Proofs.BuffersProofs Proofs.NestingProofs Proofs.DivGuardProofs Proofs.SteppingProofs Proofs.FormatRefProofs Proofs.AliasesProofs.
 Import List.
 Local Open Scope Z_scope.
 
@@ -249,6 +249,32 @@ Theorem format_field_ref_bounds :
 Proof. exact field_ref_spec. Qed.
 Print Assumptions format_field_ref_bounds.
 
+(* ================= (f) termination of the alias expansion loop ================= *)
+
+(* journal_t::expand_aliases, with what the SOURCE records in already_seen: whatever the alias
+   table and the account name, with or without --recursive-aliases, the loop ends within one
+   round per alias and one more - it stops or reports a cycle.  (Each round that goes on records a
+   key of the table that was not recorded before.)  The statement is about the source's choice
+   of what to record and stops compiling when a branch records something it did not look up. *)
+Theorem alias_expansion_terminates :
+  forall recursive m name, expand src_alias_records_what_it_looks_up recursive m name <> NoEnd.
+Proof. exact expand_terminates_proof. Qed.
+Print Assumptions alias_expansion_terminates.
+
+Theorem alias_expansion_fuel_irrelevant :
+  forall recursive m fuel name seen r,
+    expand_aliases true recursive fuel m name seen = r -> r <> NoEnd ->
+    forall fuel', (fuel <= fuel')%nat -> expand_aliases true recursive fuel' m name seen = r.
+Proof. intros recursive m. exact (expand_fuel_irrelevant recursive m). Qed.
+Print Assumptions alias_expansion_fuel_irrelevant.
+
+(* why it matters what is recorded: recording the whole name in the first-segment branch, the
+   aliases A = B:X, B = A:Y and a posting to A:Z are expanded for ever *)
+Theorem alias_wrong_record_never_ends :
+  forall fuel, expand_aliases false true fuel cycle_table [seg_A; seg_Z] [] = NoEnd.
+Proof. exact wrong_record_never_ends_proof. Qed.
+Print Assumptions alias_wrong_record_never_ends.
+
 (* ================= the guards the theorems rely on are in the source ================= *)
 Theorem source_guards_present :
   src_period_zero_guard = true /\ src_int_div_guard = true /\ src_line_too_long_guard = true /\
@@ -256,7 +282,7 @@ Theorem source_guards_present :
   (* guards added by the repairs of F42 F47 F39 F43 F45 *)
   src_conversion_cycle_guard = true /\ src_expr_argument_guard = true /\ src_script_loop_guard = true /\
   src_no_xact_journal_master = true /\ src_find_account_no_frame_buffer = true /\
-  src_format_field_ref_guard = true.
+  src_format_field_ref_guard = true /\ src_alias_records_what_it_looks_up = true.
 Proof. repeat split; reflexivity. Qed.
 Print Assumptions source_guards_present.
 
